@@ -33,6 +33,10 @@ CLAIMED = {
    technique="stateless model checking of the implementation: exhaustive delay-bounded DFS placing the cancellation / deadline expiry at every scheduling point of ctxio operation sequences against a controlled peer, with a byte-stream reference model",
    text="Sequences of <=3 operations {ReadBytes, raw Read, Write} on the real ctxio.Conn over a controlled connection, the first 1-2 under a cancellable context (cancel, or deadline = context expiry and connection-deadline expiry in both orders), 3 segmentations of the peer's stream, draining and stalled peers, plus service handlers parked in their per-connection read when the serving context ends. All interleavings up to the delay bound, i.e. the cancellation at every instant relative to data arrival and to both select branches. Oracle: every operation returns (a thread parked forever is the violation); cancelled operations report a context/timeout error or their normal result; no helper goroutine is alive when an operation returns; an operation under a live context never fails with a timeout; delivered bytes are in order, unduplicated, and may be missing only if they had arrived before a cancelled operation returned; successful writes reach the peer in order; cancelled handlers end and close their connection.",
    note="Decided on vnet's model of the documented net.Conn deadline semantics. Whether real transports (unix, tcp, net.Pipe, bridge PipeCon) honour those semantics is a separate conformance matrix (see DESIGN.md §C17); the armed-deadline clause is judged functionally (next operation must not time out)."),
+ "C13": dict(engine=A, design="§3 C13",
+   technique="exhaustive enumeration of register/serve/shutdown/query histories up to a length bound, executed on the implementation under the controlled scheduler and compared step by step with a list+map reference model",
+   text="All histories of length <=4 (thorough <=5) over {register one of 6 name/description pairs (incl. a duplicate name with a different text, the built-in name, a resolver), serve, shutdown, query} and 3 identity-string sets are executed on the real Service; a query uses the library's own client helpers over a controlled connection: GetInfo (also with nil out-pointers), GetInterfaceDescription for every name ever mentioned plus its prefix, upper-case variant and one-character extension, '', and Resolver.GetInfo/Resolve when a resolver is registered. Every registration verdict, the registered-names list after every step and every query result must equal the reference model (names in registration order after org.varlink.service, texts verbatim incl. '', non-ASCII and a 76 KiB text, InvalidParameter(interface) otherwise, refusals change nothing).",
+   note="Strings come from a small adversarial alphabet (valid UTF-8 only, as the property says); schedules: default plus 1 deviation for short histories - the data-race side of registering while serving is C16's."),
 }
 
 NOT_YET = "check not built yet (work in progress; see DESIGN.md for the plan)"
